@@ -1,7 +1,9 @@
 """C14 / C17 (and the C01 / C08 record-length caps): the byte transport under the record layer.
 
   tlslite/bufferedsocket.py   BufferedSocket.send / sendall / flush / recv / shutdown / close
-  tlslite/recordlayer.py      RecordSocket._sockSendAll / _sockRecvAll / _recvHeader / recv / send
+  tlslite/recordlayer.py      RecordSocket._sockSendAll / _sockRecvAll / _recvHeader / recv / send  (+ round-trip lemma)
+  tlslite/integration/asyncstatemachine.py   representation invariant of _checkAssert over all methods
+  tlslite/messagesocket.py    MessageSocket.flush / queueMessage (sendRecord assumed)
 
 GHOST TRANSPORT (trusted model of the object the library calls `socket`, class name 'GhostSock'):
   stream : Bytes   everything the peer will ever deliver on this connection, in order (fixed)
@@ -277,14 +279,16 @@ for _p in ('C14', 'C17'):
 #                 3 bytes otherwise:  length = ((b0 & 0x3f) << 8) | b1, is-escape = b0 & 0x40, padding = b2
 #                 a header whose padding exceeds the length, or with padding and a length that is no multiple of
 #                 the block size 8, is malformed
-import contracts.messages_simple as _ms     # noqa: E402  (RecordHeader3.parse / write contracts, Parser contracts)
+# (contracts.codec / contracts.messages_simple are deliberately NOT imported: loading them changes how Parser / Writer calls
+# are resolved in every other module of the same property; the header codecs are small and are inlined from /repo here)
 
 TLS_CONTENT_TYPES = (20, 21, 22, 23, 24)
 
-# RecordHeader3.parse returns `self`; its registered contract (contracts/messages_simple.py) describes the fields but
-# gives the RESULT as an opaque value, so the identity "result is the parsed header object" would be lost at the call
-# site.  Inside the bodies verified here the 5-statement real body is therefore inlined instead (it is built from
-# Parser.get, used by contract).
+# When contracts/messages_simple.py is loaded in the same run (e.g. under C08): RecordHeader3.parse returns `self`; its
+# contract there describes the fields but gives the RESULT as an opaque value, so the identity "result is the parsed
+# header object" would be lost at the call site.  Inside the bodies verified here the 5-statement real body is
+# therefore always inlined (Parser.get / Writer.add are used by contract when contracts/codec.py is loaded, inlined
+# otherwise: both configurations discharge).
 _PREFER_INLINE = {'tlslite/messages.py:RecordHeader3.parse'}
 _prev_contract_for = type(REG).contract_for
 
@@ -431,3 +435,742 @@ gen_contract(R + 'RecordSocket.recv',
              doc='returns exactly the next record (header, body) of the peer\'s stream for every chunking schedule, with '
                  'len(body) == header.length; a declared length above limit+2048 (TLS 1.3 records: limit+256) raises '
                  'TLSRecordOverflow before any body byte is read; truncation => TLSAbruptCloseError; only 0 yielded before')
+
+
+# --- send: header || body through _sockSendAll -----------------------------------------------------------
+MSG_T = T.obj(MSG.Message, contentType=T.int(), data=T.bytes())
+
+
+def _div(a, k):
+    return VInt(_lift(a).t / k)
+
+
+def _is_ssl2_version(v):
+    return S.Or(v == (2, 0), v == (0, 2))
+
+
+def _send_cases(ns):
+    """[(condition, header bytes)] for RecordSocket.send, from the header formats above; ns = entry state"""
+    v = ns.f(ns.self, 'version')
+    n = S.len_(ns.f(ns.msg, 'data'))
+    t = ns.f(ns.msg, 'contentType')
+    pad = ns.padding
+    ssl2 = _is_ssl2_version(v)
+    tls_hdr = S.cat(S.byte(t), S.byte(v[0]), S.byte(v[1]), S.byte(_div(n, 256)), S.byte(n % 256))
+    h2 = S.cat(S.byte(_div(n, 256) + 128), S.byte(n % 256))
+    h3 = S.cat(S.byte(_div(n, 256)), S.byte(n % 256), S.byte(pad))
+    return [(S.Not(ssl2), tls_hdr), (S.And(ssl2, pad == 0), h2), (S.And(ssl2, pad != 0), h3)]
+
+
+def _send_fits(ns):
+    v = ns.f(ns.self, 'version')
+    n = S.len_(ns.f(ns.msg, 'data'))
+    t = ns.f(ns.msg, 'contentType')
+    pad = ns.padding
+    byte = lambda x: (x >= 0) & (x <= 255)
+    return S.ite(_is_ssl2_version(v),
+                 S.ite(pad == 0, n < 0x8000, S.And(n < 0x4000, byte(pad))),
+                 S.And(byte(t), byte(v[0]), byte(v[1]), n < 65536))
+
+
+def _send_post(ns):
+    sent, sent0 = ns.f(_rs_sock(ns), 'sent'), ns.old.f(_rs_sock(ns.old), 'sent')
+    data = ns.old.f(ns.msg, 'data')
+    return S.And(_send_fits(ns.old),
+                 *[S.implies(c, sent == S.cat(sent0, h, data)) for (c, h) in _send_cases(ns.old)])
+
+
+def _send_exc(ns):
+    sent, sent0 = ns.f(_rs_sock(ns), 'sent'), ns.old.f(_rs_sock(ns.old), 'sent')
+    data = ns.old.f(ns.msg, 'data')
+    return S.And(*[S.implies(c, is_prefix_extension(sent, sent0, S.cat(h, data))) for (c, h) in _send_cases(ns.old)])
+
+
+gen_contract(R + 'RecordSocket.send',
+             params={'self': rsock_t(version=T.tuple(T.int(), T.int())), 'msg': MSG_T, 'padding': T.int()},
+             each=lambda ns, v: v == 1, final='return',
+             modifies=[('self.sock', 'sent')],
+             ensures=_send_post,
+             raises={ValueError: ('iff', lambda ns: S.Not(_send_fits(ns))), socket.error: None},
+             exc_ensures=_send_exc,
+             prop=('C14', 'C17', 'C01'),
+             doc='puts exactly header || body on the wire for every partial-accept / would-block schedule, the header '
+                 'length field being len(body) (TLS: type, version, uint16 length; SSLv2: 2- or 3-byte header); a field '
+                 'that does not fit raises ValueError before anything is sent (never a wrapped length); only 1 yielded')
+
+
+# --- header round trip over the ghost wire (C01: "length == len(body)", type / version preserved) -----------
+@scenario('roundtrip-record-socket', ('C01', 'C14'),
+          doc='RecordSocket.recv on the receiver returns exactly (type, version, len(body), body) of what RecordSocket.send '
+              'put on the sender\'s wire, for every chunking on both sides, whenever the body length is within the '
+              'receiver\'s cap; uses the two contracts proved above')
+def rt_record_socket(api):
+    st = api.st
+    ex = api.ex
+    snd = api.make('S', rsock_t(version=T.tuple(T.int(0, 255), T.int(0, 255))))
+    rcv = api.make('R', rsock_t(recv_record_limit=T.int(0, 1 << 14), tls13record=T.bool()))
+    msg = api.make('msg', MSG_T)
+    ns = api.ns(st)
+    v = ns.f(snd, 'version')
+    t = ns.f(msg, 'contentType')
+    data = ns.f(msg, 'data')
+    lim = ns.f(rcv, 'recv_record_limit')
+    rsk, ssk = ns.f(rcv, 'sock'), ns.f(snd, 'sock')
+    st.assume(S.And(S.Not(_is_ssl2_version(v)), S.Or(*[t == k for k in TLS_CONTENT_TYPES]),
+                    S.len_(data) <= lim + 2048, S.implies(ns.f(rcv, 'tls13record'), S.len_(data) <= lim + 256),
+                    ns.f(rsk, 'pos') >= 0, ns.f(rsk, 'pos') <= S.len_(ns.f(rsk, 'stream'))).t)
+    sent0 = ns.f(ssk, 'sent')
+    pos0 = ns.f(rsk, 'pos')
+    stream = ns.f(rsk, 'stream')
+    for o in gen1.apply_now(ex, R + 'RecordSocket.send', [snd, msg, VInt(0)], st, api.fr):
+        if o.kind != 'normal':
+            if issubclass(o.val.cls, ValueError):
+                api.unreachable(o.st, 'sender-does-not-reject(%s)' % o.val.origin)
+            continue                                        # socket.error: the transport failed, nothing to receive
+        ns1 = api.ns(o.st)
+        sent1 = ns1.f(ssk, 'sent')
+        w = S.len_(sent1) - S.len_(sent0)
+        # the wire delivers to the receiver what the sender's socket accepted
+        # (stated as stream == already-consumed || accepted-by-the-sender's-socket || whatever follows)
+        before = api.make('before', T.bytes(), o.st)
+        after = api.make('after', T.bytes(), o.st)
+        o.st.assume(S.And(w >= 0, S.len_(before) == pos0,
+                          stream == S.cat(before, sent1[S.len_(sent0):S.len_(sent1)], after)).t)
+        api.oblige(o.st, 'wire-is-header-plus-body', w == 5 + S.len_(data))
+        for o2 in gen1.apply_now(ex, R + 'RecordSocket.recv', [rcv], o.st, api.fr):
+            if o2.kind != 'normal':
+                if not issubclass(o2.val.cls, socket.error):
+                    api.unreachable(o2.st, 'receiver-accepts(%s)' % o2.val.cls.__name__)
+                continue
+            ns2 = api.ns(o2.st)
+            hdr, body = o2.val.items[-1].items
+            api.oblige(o2.st, 'type-version-preserved', S.And(ns2.f(hdr, 'type') == t, ns2.f(hdr, 'version') == v,
+                                                              S.Not(ns2.f(hdr, 'ssl2'))))
+            api.oblige(o2.st, 'length-field-is-body-length', S.And(ns2.f(hdr, 'length') == S.len_(data),
+                                                                   S.len_(body) == S.len_(data)))
+            api.oblige(o2.st, 'body-equal', S.seq_eq(body, data))
+            api.oblige(o2.st, 'exactly-one-record-consumed', ns2.f(rsk, 'pos') == pos0 + w)
+
+
+# ======================================================================================================
+# BufferedSocket
+#
+# Abstract view:  read_buffer : Bytes  (read ahead, not yet handed out)
+#                 write_queue : list of Bytes, held until flush; FLAT(queue) = concatenation in order
+# The deque of byte strings is modelled as the heap object 'BytesQueue' (trusted model of collections.deque
+# restricted to append / clear / iteration / len, elements byte strings that are not mutated after the append):
+#   n : Int  number of elements,   flat : Bytes  their concatenation,
+#   off : Int -> Int  start offsets, off[0] = 0, off[k] <= off[k+1], off[n] = len(flat);  element k = flat[off[k]:off[k+1]]
+import collections                                       # noqa: E402
+
+QUEUE = 'BytesQueue'
+_OffSort = z3.ArraySort(z3.IntSort(), z3.IntSort())
+
+
+class VArr(V):
+    """z3 array kept in a heap field"""
+
+    def __init__(self, t):
+        self.t = t
+
+    def fresh_like_(self, base):
+        return VArr(z3.Const(fresh_name(base), self.t.sort()))
+
+    def __repr__(self):
+        return 'VArr'
+
+
+def make_queue(name, st, empty=False):
+    o = st.alloc(QUEUE)
+    if empty:
+        st.heap[(o.oid, 'n')] = VInt(0)
+        st.heap[(o.oid, 'flat')] = VSeq(smt.s_empty, 'byte', 'bytearray')
+        st.heap[(o.oid, 'off')] = VArr(z3.K(z3.IntSort(), z3.IntVal(0)))
+        return o
+    st.fresh_objs.discard(o.oid)
+    n = VInt(z3.Int(fresh_name(name + '.n')))
+    flat = VSeq(z3.Const(fresh_name(name + '.flat'), smt.Seq), 'byte', 'bytearray')
+    off = VArr(z3.Const(fresh_name(name + '.off'), _OffSort))
+    st.assume(z3.And(n.t >= 0, isb(flat.t), z3.Select(off.t, 0) == 0, z3.Select(off.t, n.t) == slen(flat.t)))
+    st.heap[(o.oid, 'n')], st.heap[(o.oid, 'flat')], st.heap[(o.oid, 'off')] = n, flat, off
+    return o
+
+
+class TQueue(T):
+    def __init__(self):
+        T.__init__(self, 'bytesqueue')
+
+    def make(self, name, st, bv=None):
+        return make_queue(name, st)
+
+
+class BytesQueueModel(object):
+    def getattr(self, ex, v, name, st):
+        if name in ('append', 'clear'):
+            return VPy(SpecFn(getattr(self, 'm_' + name)(v), 'deque.' + name))
+        return None
+
+    def len(self, ex, v, st):
+        return st.heap[(v.oid, 'n')]
+
+    def m_append(self, v):
+        def f(ex, args, kw, st, fr, node):
+            d = args[0]
+            if not (isinstance(d, VSeq) and d.elem == 'byte'):
+                raise Unsupported('BytesQueue.append(%r)' % (d,))
+            n, flat, off = st.heap[(v.oid, 'n')], st.heap[(v.oid, 'flat')], st.heap[(v.oid, 'off')]
+            st.heap[(v.oid, 'n')] = VInt(z3.simplify(n.t + 1))
+            st.heap[(v.oid, 'flat')] = VSeq(smt.s_concat(flat.t, d.t), 'byte', 'bytearray')
+            st.heap[(v.oid, 'off')] = VArr(z3.Store(off.t, n.t + 1, z3.Select(off.t, n.t) + slen(d.t)))
+            return [Outcome('normal', st, VNone())]
+        return f
+
+    def m_clear(self, v):
+        def f(ex, args, kw, st, fr, node):
+            off = st.heap[(v.oid, 'off')]
+            st.heap[(v.oid, 'n')] = VInt(0)
+            st.heap[(v.oid, 'flat')] = VSeq(smt.s_empty, 'byte', 'bytearray')
+            st.heap[(v.oid, 'off')] = VArr(z3.Store(off.t, 0, 0))
+            return [Outcome('normal', st, VNone())]
+        return f
+
+
+REG.models[QUEUE] = BytesQueueModel()
+REG.class_models[collections.deque] = \
+    lambda ex, args, kw, st, fr, node: [Outcome('normal', st, make_queue('deque', st, empty=True))] if not args and not kw \
+    else (_ for _ in ()).throw(Unsupported('deque(...) with arguments'))
+
+
+class _QueueSource(object):
+    """loop source (pyvc/iters.py protocol) for `for x in queue`"""
+    stateful = False
+
+    def __init__(self, q, st):
+        self.q = q
+        self.lo, self.hi = VInt(0), st.heap[(q.oid, 'n')]
+
+    def elem_at(self, ex, st, i):
+        flat, off = st.heap[(self.q.oid, 'flat')], st.heap[(self.q.oid, 'off')]
+        a, b = z3.Select(off.t, i), z3.Select(off.t, i + 1)
+        st.assume(z3.And(0 <= a, a <= b, b <= slen(flat.t)))          # instance of the representation invariant
+        x = VSeq(smt.s_slice(flat.t, a, b), 'byte', 'bytearray')
+        st.assume(isb(x.t))
+        return x
+
+    def done(self, ex, st):
+        pass
+
+    def static_items(self, ex, st):
+        return None
+
+
+def _queue_provider(ex, v, st):
+    if isinstance(v, VObj) and v.cls == QUEUE:
+        return _QueueSource(v, st)
+    return None
+
+
+if not hasattr(REG, 'loop_sources'):
+    REG.loop_sources = []
+REG.loop_sources.append(_queue_provider)
+
+
+def bsock_t():
+    return T.obj(BS.BufferedSocket, socket=sock_t(), _write_queue=TQueue(), buffer_writes=T.bool(),
+                 _read_buffer=T.bytes())
+
+
+def _bs(ns):
+    return ns.f(ns.self, 'socket')
+
+
+def _q(ns):
+    return ns.f(ns.self, '_write_queue')
+
+
+def q_flat(ns):
+    return ns.f(_q(ns), 'flat')
+
+
+def q_n(ns):
+    return ns.f(_q(ns), 'n')
+
+
+def q_off(ns, k):
+    return VInt(z3.Select(ns.f(_q(ns), 'off').t, _lift(k).t))
+
+
+def q_empty(ns):
+    return S.And(q_n(ns) == 0, S.len_(q_flat(ns)) == 0)
+
+
+def q_unchanged(ns):
+    return S.And(q_n(ns) == q_n(ns.old), q_flat(ns) == q_flat(ns.old))
+
+
+def _sock_same(ns, *fields):
+    return S.And(*[ns.f(_bs(ns), f) == ns.old.f(_bs(ns.old), f) for f in fields])
+
+
+def _rb(ns):
+    return ns.f(ns.self, '_read_buffer')
+
+
+_BS_MOD_SEND = [('self.socket', 'sent'), ('self._write_queue', 'n'), ('self._write_queue', 'flat'),
+                ('self._write_queue', 'off')]
+
+# --- flush ---------------------------------------------------------------------------------------------------
+contract(B + 'BufferedSocket.flush',
+         params={'self': bsock_t()},
+         result=T.none(), modifies=_BS_MOD_SEND,
+         ensures=lambda ns: S.And(ns.f(_bs(ns), 'sent') == S.cat(ns.old.f(_bs(ns.old), 'sent'), q_flat(ns.old)),
+                                  q_empty(ns), _rb(ns) == _rb(ns.old), _sock_same(ns, 'pos', 'closed')),
+         raises={socket.error: None},
+         exc_ensures=lambda ns: S.And(q_empty(ns),          # a failed flush is not retried (e.g. by close())
+                                      is_prefix_extension(ns.f(_bs(ns), 'sent'), ns.old.f(_bs(ns.old), 'sent'), q_flat(ns.old)),
+                                      _rb(ns) == _rb(ns.old), _sock_same(ns, 'pos', 'closed')),
+         loops={1: LoopSpec(lambda ns: S.And(ns.buf == q_flat(ns)[0:q_off(ns, ns.idx)], S.is_bytes(ns.buf)),
+                            fingerprint='_write_queue')},
+         prop=('C14', 'C17'),
+         doc='sends the concatenation of the queued writes, in order, in one sendall; the queue is empty afterwards on '
+             'EVERY exit, also when sendall raises (then a prefix of the data is on the wire)')
+
+
+# --- send / sendall ------------------------------------------------------------------------------------------
+def _queued(ns):
+    """the queue grew by exactly the element `data`"""
+    n0 = q_n(ns.old)
+    return S.And(q_n(ns) == n0 + 1, q_flat(ns) == S.cat(q_flat(ns.old), ns.data),
+                 q_off(ns, n0 + 1) == q_off(ns.old, n0) + S.len_(ns.data), q_off(ns, n0) == q_off(ns.old, n0))
+
+
+contract(B + 'BufferedSocket.send',
+         params={'self': bsock_t(), 'data': T.bytes()},
+         result=T.int(), modifies=_BS_MOD_SEND,
+         ensures=lambda ns: S.And(
+             S.implies(ns.old.f(ns.self, 'buffer_writes'),
+                       S.And(ns.result == S.len_(ns.data), _queued(ns), _sock_same(ns, 'sent', 'pos', 'closed'))),
+             S.implies(S.Not(ns.old.f(ns.self, 'buffer_writes')),
+                       S.And(ns.result >= 0, ns.result <= S.len_(ns.data), q_unchanged(ns),
+                             ns.f(_bs(ns), 'sent') == S.cat(ns.old.f(_bs(ns.old), 'sent'), ns.data[0:ns.result]),
+                             _sock_same(ns, 'pos', 'closed'))),
+             _rb(ns) == _rb(ns.old)),
+         raises={socket.error: lambda ns: S.Not(ns.f(ns.self, 'buffer_writes'))},
+         exc_ensures=lambda ns: S.And(q_unchanged(ns), _sock_same(ns, 'sent', 'pos', 'closed'), _rb(ns) == _rb(ns.old)),
+         prop=('C14', 'C17'),
+         doc='buffer_writes: the data is appended to the queue (nothing sent, reported as fully accepted, cannot fail); '
+             'otherwise passed through to the socket unchanged: result = number of bytes the socket accepted')
+
+contract(B + 'BufferedSocket.sendall',
+         params={'self': bsock_t(), 'data': T.bytes()},
+         result=T.none(), modifies=_BS_MOD_SEND,
+         ensures=lambda ns: S.And(
+             S.implies(ns.old.f(ns.self, 'buffer_writes'), S.And(_queued(ns), _sock_same(ns, 'sent', 'pos', 'closed'))),
+             S.implies(S.Not(ns.old.f(ns.self, 'buffer_writes')),
+                       S.And(q_unchanged(ns), ns.f(_bs(ns), 'sent') == S.cat(ns.old.f(_bs(ns.old), 'sent'), ns.data),
+                             _sock_same(ns, 'pos', 'closed'))),
+             _rb(ns) == _rb(ns.old)),
+         raises={socket.error: lambda ns: S.Not(ns.f(ns.self, 'buffer_writes'))},
+         exc_ensures=lambda ns: S.And(q_unchanged(ns), _rb(ns) == _rb(ns.old), _sock_same(ns, 'pos', 'closed'),
+                                      is_prefix_extension(ns.f(_bs(ns), 'sent'), ns.old.f(_bs(ns.old), 'sent'), ns.data)),
+         prop=('C14', 'C17'),
+         doc='buffer_writes: queued; otherwise everything is passed to socket.sendall')
+
+
+# --- recv ----------------------------------------------------------------------------------------------------
+def _bs_recv_post(ns):
+    sk0 = _bs(ns.old)
+    pos0, pos1 = ns.old.f(sk0, 'pos'), ns.f(_bs(ns), 'pos')
+    stream = ns.old.f(sk0, 'stream')
+    rb0, rb1 = _rb(ns.old), _rb(ns)
+    avail = S.len_(rb0) + (pos1 - pos0)
+    return S.And(pos0 <= pos1, pos1 <= S.len_(stream),
+                 # FIFO, nothing lost, nothing duplicated: handed out ++ kept == held before ++ newly read
+                 S.cat(ns.result, rb1) == S.cat(rb0, stream[pos0:pos1]),
+                 # as much as asked for and available, never more than asked for
+                 S.len_(ns.result) == S.min_(ns.bufsize, avail),
+                 # the socket is only asked when nothing is buffered (no read-ahead beyond one chunk)
+                 S.implies(S.len_(rb0) > 0, pos1 == pos0),
+                 # an empty result for a non-empty request means end of stream (never "would block", never data withheld)
+                 S.implies(S.And(S.len_(ns.result) == 0, ns.bufsize > 0), S.And(pos1 == S.len_(stream), S.len_(rb1) == 0)),
+                 S.is_bytes(ns.result), S.is_bytes(rb1),
+                 q_unchanged(ns), _sock_same(ns, 'sent', 'closed'))
+
+
+contract(B + 'BufferedSocket.recv',
+         params={'self': bsock_t(), 'bufsize': T.int(0)},
+         requires=lambda ns: sock_ok(ns, _bs(ns)),
+         result=T.bytes(), modifies=[('self', '_read_buffer'), ('self.socket', 'pos')],
+         ensures=_bs_recv_post,
+         raises={socket.error: lambda ns: S.len_(_rb(ns)) == 0},
+         exc_ensures=lambda ns: S.And(_rb(ns) == _rb(ns.old), _sock_same(ns, 'pos', 'sent', 'closed'), q_unchanged(ns)),
+         prop=('C14', 'C17'),
+         doc='returns the first min(bufsize, available) bytes of read_buffer ++ chunk-just-read and keeps exactly the rest '
+             '(FIFO, nothing lost or duplicated); the socket is read only when the buffer is empty; when socket.recv '
+             'raises (would-block / fault) no buffered byte is lost: buffer and position unchanged; b"" only at EOF')
+
+
+# --- shutdown / close: flush first -----------------------------------------------------------------------------
+def _closing_post(ns):
+    return S.And(ns.f(_bs(ns), 'closed'),
+                 # everything queued reached the socket BEFORE it was shut
+                 ns.f(_bs(ns), 'sent_at_close') == S.cat(ns.old.f(_bs(ns.old), 'sent'), q_flat(ns.old)),
+                 ns.f(_bs(ns), 'sent') == ns.f(_bs(ns), 'sent_at_close'),
+                 q_empty(ns))
+
+
+_BS_MOD_CLOSE = _BS_MOD_SEND + [('self.socket', 'closed'), ('self.socket', 'sent_at_close')]
+for _name, _params in (('shutdown', {'self': bsock_t(), 'how': T.int()}), ('close', {'self': bsock_t()})):
+    contract(B + 'BufferedSocket.' + _name, params=_params,
+             requires=lambda ns: S.Not(ns.f(_bs(ns), 'closed')),
+             result=T.none(), modifies=_BS_MOD_CLOSE,
+             ensures=_closing_post,
+             raises={socket.error: None},
+             exc_ensures=lambda ns: S.And(q_empty(ns),
+                                          is_prefix_extension(ns.f(_bs(ns), 'sent'), ns.old.f(_bs(ns.old), 'sent'),
+                                                              q_flat(ns.old))),
+             prop=('C14', 'C17'),
+             doc='%s() flushes first: all queued data is accepted by the socket before it is shut; the queue is empty on '
+                 'every exit' % _name)
+
+for _p in ('C14', 'C17'):
+    REG.note(_p, 'trusted', 'collections.deque restricted to append/clear/iteration, modelled as (count, concatenation, offsets) '
+                            '(contracts/transport.py BytesQueue); queued bytearrays are not mutated by the caller after send()')
+    REG.note(_p, 'assumptions', 'BufferedSocket.recv / RecordSocket receive side: 0 <= pos <= len(stream) (ghost invariant), bufsize >= 0, '
+                                'length >= 0 (call sites pass 1, 4, 1|2 and a parsed uint16); recv_record_limit in 0..2^14 '
+                                '(written only from min(2**14, ...) in tlsconnection.py)')
+
+
+# ======================================================================================================
+# AsyncStateMachine: representation invariant of _checkAssert
+#
+#   I(self):  (result is None  and  no operation slot is set)   or   (result in (0, 1)  and  exactly one slot is set)
+# established by __init__ / _clear, preserved by every set*Op / in*Event / _do*Op on EVERY exit (normal or raising).
+# The operation slots hold None or a generator; generators are the abstract object 'AbsGen' whose next() may
+#   return 0 or 1, raise StopIteration, raise any other exception, and (the read operation only) return a
+#   completion value that is not 0/1 -- i.e. what the generator contracts above and the M2 tasks establish for
+#   the handshake / close / write / read generators ("only 0/1 before completion").
+# The states satisfying I are exactly five shapes (idle, or one of the four slots set with result in {0,1}); each
+# method is verified once per shape (contract variants), so the union is "for every state satisfying I".
+import tlslite.integration.asyncstatemachine as ASM            # noqa: E402
+
+A = 'tlslite/integration/asyncstatemachine.py:'
+GEN = 'AbsGen'
+CONN = 'AbsConn'
+SLOTS = ('handshaker', 'closer', 'reader', 'writer')
+
+
+class AbsGenModel(object):
+    def getattr(self, ex, v, name, st):
+        return None
+
+    def next(self, ex, it, st, fr, node):
+        kind = st.heap.get((it.oid, 'kind'))
+        res = []
+        r = VInt(z3.Int(fresh_name('gen_yield')))
+        s1 = st.fork()
+        s1.assume(z3.Or(r.t == 0, r.t == 1))
+        res.append(Outcome('normal', s1, r))
+        res.append(Outcome('raise', st.fork(), VExc(StopIteration, [], 'next() line %d' % _line(node))))
+        res.append(Outcome('raise', st.fork(), VExc(Exception, [], 'exception inside the operation, line %d' % _line(node))))
+        if isinstance(kind, VStr) and kind.s == 'reader':
+            s2 = st.fork()
+            data = VSeq(z3.Const(fresh_name('read_data'), smt.Seq), 'byte', 'bytearray')
+            s2.assume(isb(data.t))
+            res.append(Outcome('normal', s2, data))
+        return res
+
+
+class AbsConnModel(object):
+    """tlsConnection.readAsync / closeAsync / writeAsync / handshakeServerAsync: return a new generator (calling a
+    generator function runs no code) -- or raise, which the callers must survive as well"""
+    KINDS = {'readAsync': 'reader', 'closeAsync': 'closer', 'writeAsync': 'writer', 'handshakeServerAsync': 'handshaker'}
+
+    def getattr(self, ex, v, name, st):
+        if name in self.KINDS:
+            kind = self.KINDS[name]
+
+            def f(ex, args, kw, st, fr, node):
+                g = st.alloc(GEN)
+                st.heap[(g.oid, 'kind')] = VStr(kind)
+                bad = st.fork()
+                return [Outcome('normal', st, g),
+                        Outcome('raise', bad, VExc(Exception, [], 'tlsConnection.%s line %d' % (name, _line(node))))]
+            return VPy(SpecFn(f, 'conn.' + name))
+        return None
+
+
+REG.models[GEN] = AbsGenModel()
+REG.models[CONN] = AbsConnModel()
+
+
+def asm_t(active=None, result='auto', extra_active=None):
+    """AsyncStateMachine in a given shape: `active` in SLOTS or None"""
+    f = {'tlsConnection': T.obj(CONN)}
+    for s in SLOTS:
+        f[s] = T.obj(GEN, kind=T.const(s)) if s in (active, extra_active) else T.none()
+    if result == 'auto':
+        f['result'] = T.none() if active is None else T.int(0, 1)
+    else:
+        f['result'] = result
+    return T.obj(ASM.AsyncStateMachine, **f)
+
+
+def asm_inv(ns):
+    """I(self) over the state ns"""
+    vals = [ns.f(ns.self, s) for s in SLOTS]
+    if not all(isinstance(v, (VNone, VObj)) for v in vals):
+        return VBool(z3.BoolVal(False))
+    active = sum(1 for v in vals if isinstance(v, VObj))
+    r = ns.f(ns.self, 'result')
+    if isinstance(r, VNone):
+        return VBool(z3.BoolVal(active == 0))
+    if isinstance(r, VInt):
+        return S.And(S.Or(r == 0, r == 1), VBool(z3.BoolVal(active == 1)))
+    return VBool(z3.BoolVal(False))
+
+
+def asm_idle(ns):
+    return VBool(z3.BoolVal(all(isinstance(ns.f(ns.self, s), VNone) for s in SLOTS) and
+                            isinstance(ns.f(ns.self, 'result'), VNone)))
+
+
+SHAPES = {'idle': None, 'handshaking': 'handshaker', 'closing': 'closer', 'reading': 'reader', 'writing': 'writer'}
+_ASM_PROP = ('C14',)
+
+# callbacks to the subclass: the invariant must hold when control is handed out (the callback may start the next
+# operation); nothing is executed after a callback returns
+def _callback(name):
+    def h(ex, args, kw, st, fr, node):
+        from pyvc.contract import NS
+        s = st.fork()
+        s.env = {'self': args[0]}
+        ex.oblige(st, 'invariant-holds-at-callback:%s@L%d' % (name, _line(node)), truthy(_lift(asm_inv(NS(ex, s, fr)))),
+                  kind='callback')
+        return [Outcome('normal', st, VNone())]
+    return h
+
+
+for _cb in ('outConnectEvent', 'outCloseEvent', 'outReadEvent', 'outWriteEvent'):
+    REG.external[A + 'AsyncStateMachine.' + _cb] = _callback(_cb)
+    REG.no_inline.add(A + 'AsyncStateMachine.' + _cb)
+
+contract(A + 'AsyncStateMachine.__init__', params={'self': T.obj(ASM.AsyncStateMachine)},
+         result=T.none(), ensures=lambda ns: S.And(asm_inv(ns), asm_idle(ns)), raises={}, prop=_ASM_PROP,
+         variants={'new': {'self': T.obj(ASM.AsyncStateMachine)}},
+         doc='establishes the invariant: no operation, result None')
+
+contract(A + 'AsyncStateMachine._clear', result=T.none(),
+         variants={k: {'self': asm_t(v)} for k, v in SHAPES.items()},
+         ensures=lambda ns: S.And(asm_inv(ns), asm_idle(ns)), raises={}, prop=_ASM_PROP,
+         doc='from any state: all four slots None, result None')
+
+# _checkAssert raises exactly on the states outside I (or with more operations than the caller allows)
+_BAD_SHAPES = {
+    'two-active': asm_t('reader', T.int(0, 1), extra_active='writer'),
+    'result-without-operation': asm_t(None, T.int(0, 1)),
+    'operation-without-result': asm_t('closer', T.none()),
+    'result-not-0-1': asm_t('handshaker', T.int(2, 9)),
+}
+contract(A + 'AsyncStateMachine._checkAssert', name='AsyncStateMachine._checkAssert[valid]', result=T.none(),
+         variants={k: {'self': asm_t(v), 'maxActive': T.int(0, 1)} for k, v in SHAPES.items()},
+         ensures=lambda ns: asm_inv(ns),
+         raises={AssertionError: ('iff', lambda ns: S.And(S.Not(asm_idle(ns)), ns.maxActive == 0))},
+         prop=_ASM_PROP, doc='on a state satisfying I: passes unless an operation is active and maxActive == 0')
+contract(A + 'AsyncStateMachine._checkAssert', name='AsyncStateMachine._checkAssert[invalid]', result=T.none(),
+         variants={k: {'self': t, 'maxActive': T.int(0, 1)} for k, t in _BAD_SHAPES.items()},
+         ensures=lambda ns: VBool(z3.BoolVal(False)), raises={AssertionError: None}, cover=False,
+         prop=_ASM_PROP, doc='every state outside I is rejected with AssertionError (never passes)')
+
+for _m in ('inReadEvent', 'inWriteEvent'):
+    contract(A + 'AsyncStateMachine.' + _m, result=T.none(),
+             variants={k: {'self': asm_t(v)} for k, v in SHAPES.items()},
+             ensures=asm_inv, raises={Exception: None},
+             exc_ensures=lambda ns: S.And(asm_inv(ns), asm_idle(ns)),
+             prop=_ASM_PROP,
+             doc='preserves I from every state satisfying I; an exception from the running operation clears the machine '
+                 '(idle) and is re-raised; AssertionError cannot arise from _checkAssert')
+
+for _m, _extra in (('setHandshakeOp', {'handshaker': T.obj(GEN, kind=T.const('handshaker'))}), ('setCloseOp', {}),
+                   ('setWriteOp', {'writeBuffer': T.bytes()})):
+    contract(A + 'AsyncStateMachine.' + _m, result=T.none(),
+             variants={'idle': dict({'self': asm_t(None)}, **_extra)},
+             ensures=asm_inv, raises={Exception: None},
+             exc_ensures=lambda ns: S.And(asm_inv(ns), asm_idle(ns)),
+             prop=_ASM_PROP,
+             doc='from the idle state: starts the operation and runs its first step; I holds on every exit')
+    contract(A + 'AsyncStateMachine.' + _m, name='AsyncStateMachine.%s[busy]' % _m, result=T.none(),
+             variants={k: dict({'self': asm_t(v)}, **_extra) for k, v in SHAPES.items() if v is not None},
+             ensures=lambda ns: VBool(z3.BoolVal(False)), raises={AssertionError: None}, cover=False,
+             exc_ensures=lambda ns: S.And(asm_inv(ns), asm_idle(ns)),
+             prop=_ASM_PROP,
+             doc='while an operation is active a second one is never started: AssertionError, machine cleared (I holds)')
+
+for _m, _shape in (('_doHandshakeOp', 'handshaker'), ('_doCloseOp', 'closer'), ('_doReadOp', 'reader'), ('_doWriteOp', 'writer')):
+    contract(A + 'AsyncStateMachine.' + _m, result=T.none(),
+             variants={'active': {'self': asm_t(_shape)}},
+             ensures=asm_inv, raises={Exception: None},
+             prop=_ASM_PROP,
+             doc='one step of the active operation: result := 0/1, or the slot is released together with result on completion')
+
+REG.note('C14', 'trusted', 'AsyncStateMachine: operation generators modelled abstractly (next() returns 0/1, raises StopIteration or any '
+                           'exception; the read operation may return a non-0/1 completion value); tlsConnection.*Async return a new '
+                           'generator or raise; subclass callbacks out*Event are checked to be entered with the invariant and are '
+                           'assumed to leave it intact')
+REG.note('C14', 'not_built', 'AsyncStateMachine.setServerHandshakeOp (**kwargs forwarder to setHandshakeOp); MessageSocket.recvMessage / '
+                             'flush / queueMessage; Defragmenter framing-freedom lemma; yield-transparency scan; blocking == draining wrappers')
+
+
+# ======================================================================================================
+# concrete differential runs (specs/transport.py): scripted sockets with random chunking / would-block / fault
+# schedules compared with an unconstrained run and with the executable reference
+for _p, _names in (('C14', ('recordsocket_recv', 'recordsocket_send', 'bufferedsocket_history')),
+                   ('C17', ('recordsocket_recv', 'recordsocket_send', 'bufferedsocket_history', 'flush_failure_then_close')),
+                   ('C01', ('recordsocket_send', 'recordsocket_recv')),
+                   ('C08', ('recordsocket_recv',))):
+    _fn = {'recordsocket_recv': R + 'RecordSocket.recv', 'recordsocket_send': R + 'RecordSocket.send',
+           'bufferedsocket_history': B + 'BufferedSocket.recv', 'flush_failure_then_close': B + 'BufferedSocket.flush'}
+    for _n in _names:
+        REG.xchecks.append({'prop': _p, 'module': 'specs.transport', 'name': _n, 'function': _fn[_n]})
+
+REG.note('C01', 'trusted', 'RecordSocket header round trip and length caps (contracts/transport.py) are proved against the ghost transport '
+                           'model: the OS socket delivers the accepted bytes in order')
+REG.note('C08', 'assumptions', 'RecordSocket.recv cap: recv_record_limit in 0..2^14; "bounded memory" is stated as: TLSRecordOverflow leaves '
+                               'with exactly the header consumed from the socket (no body byte read), accepted bodies are <= limit+2048 '
+                               '(TLS 1.3 records: limit+256)')
+REG.note('C17', 'assumptions', 'BufferedSocket.close()/shutdown(): when the flush inside fails the underlying socket is NOT closed by this call '
+                               '(the exception propagates first); the contract only requires the queue to be empty so that a retry does '
+                               'not resend; TLSRecordLayer._shutdown ordering (closed flag before sock.close()) is outside this module')
+
+
+# ======================================================================================================
+# MessageSocket.flush / queueMessage  (write-side queue above the record layer)
+#
+# Abstract view: pending = _sendBuffer (bytes of ONE content type, _sendBufferType).  Ghost history of what was handed
+# to RecordLayer.sendRecord, kept on the object:  g_out = concatenation of the payloads, g_types[k] / g_lens[k] =
+# content type / payload length of the k-th record.  RecordLayer.sendRecord itself (protection + RecordSocket.send,
+# proved above) is ASSUMED here to: hand exactly msg.write() of type msg.contentType to the wire as one record,
+# yield only 1 before completing, and on failure not count the record as sent.
+import tlslite.messagesocket as MS                     # noqa: E402
+
+MSK = 'tlslite/messagesocket.py:'
+
+
+def msock_t(typed):
+    return T.obj(MS.MessageSocket, _sendBuffer=T.bytes(), _sendBufferType=(T.int(0, 255) if typed else T.none()),
+                 recordSize=T.int(), g_out=T.bytes(), g_types=T.ints(), g_lens=T.ints())
+
+
+def _single(x):
+    return VSeq(smt.s_single(_lift(x).t), 'int', 'list')
+
+
+def _g(ns, f):
+    return ns.f(ns.self, f)
+
+
+_G_MOD = [('self', 'g_out'), ('self', 'g_types'), ('self', 'g_lens')]
+
+_SENDRECORD = gen_contract(
+    R + 'RecordLayer.sendRecord', assumed=True,
+    params={'self': msock_t(True), 'msg': MSG_T},
+    each=lambda ns, v: v == 1, final='return', modifies=_G_MOD,
+    ensures=lambda ns: S.And(_g(ns, 'g_out') == S.cat(_g(ns.old, 'g_out'), ns.f(ns.msg, 'data')),
+                             _g(ns, 'g_types') == S.cat(_g(ns.old, 'g_types'), _single(ns.f(ns.msg, 'contentType'))),
+                             _g(ns, 'g_lens') == S.cat(_g(ns.old, 'g_lens'), _single(S.len_(ns.f(ns.msg, 'data'))))),
+    raises={Exception: None},
+    exc_ensures=lambda ns: S.And(*[_g(ns, f) == _g(ns.old, f) for f in ('g_out', 'g_types', 'g_lens')]),
+    prop=('C14',), doc='assumed model of RecordLayer.sendRecord for the MessageSocket contracts')
+gen1.assume_generator(_SENDRECORD)
+
+
+def _ms_hist_ok(ns):
+    return S.len_(_g(ns, 'g_types')) == S.len_(_g(ns, 'g_lens'))
+
+
+def _flush_records(ns, ns0, final):
+    """the records appended since ns0 all carry the queue's type, are non-empty and at most recordSize long, and all
+    but possibly the last are exactly recordSize long (=> as few records as possible); `final`: nothing is pending"""
+    types, lens = _g(ns, 'g_types'), _g(ns, 'g_lens')
+    n0, n = S.len_(_g(ns0, 'g_types')), S.len_(types)
+    t0, rs = _g(ns0, '_sendBufferType'), _g(ns0, 'recordSize')
+    more = S.len_(_g(ns, '_sendBuffer')) > 0
+    return S.And(
+        n >= n0, S.len_(lens) == n,
+        types[0:n0] == _g(ns0, 'g_types'), lens[0:n0] == _g(ns0, 'g_lens'),
+        S.forall(lambda k: S.And(types[k] == t0, lens[k] >= 1, lens[k] <= rs,
+                                 S.implies(S.Or(k < n - 1, VBool(z3.BoolVal(False)) if final else more), lens[k] == rs)),
+                 n0, n))
+
+
+def _flush_inv(ns):
+    buf, buf0 = _g(ns, '_sendBuffer'), _g(ns.old, '_sendBuffer')
+    d = S.len_(buf0) - S.len_(buf)
+    return S.And(d >= 0, buf == buf0[d:S.len_(buf0)], _g(ns, 'g_out') == S.cat(_g(ns.old, 'g_out'), buf0[0:d]),
+                 S.is_bytes(buf), _flush_records(ns, ns.old, False))
+
+
+def _set_type_none(ex, st, env):
+    st.heap[(env['self'].oid, '_sendBufferType')] = VNone()
+
+
+def _type_is_none(ns):
+    return VBool(z3.BoolVal(isinstance(_g(ns, '_sendBufferType'), VNone)))
+
+
+_MS_MOD = _G_MOD + [('self', '_sendBuffer')]
+
+gen_contract(MSK + 'MessageSocket.flush',
+             params={'self': msock_t(True)},
+             requires=lambda ns: S.And(_g(ns, 'recordSize') >= 1, _ms_hist_ok(ns)),
+             each=lambda ns, v: v == 1, final='return', modifies=_MS_MOD, post_apply=_set_type_none,
+             ensures=lambda ns: S.And(_g(ns, 'g_out') == S.cat(_g(ns.old, 'g_out'), _g(ns.old, '_sendBuffer')),
+                                      S.len_(_g(ns, '_sendBuffer')) == 0, _type_is_none(ns),
+                                      _flush_records(ns, ns.old, True)),
+             raises={Exception: None},
+             exc_ensures=lambda ns: S.And(is_prefix_extension(_g(ns, 'g_out'), _g(ns.old, 'g_out'), _g(ns.old, '_sendBuffer')),
+                                          # nothing is queued twice: sent ++ still pending is a suffix-free cut of the old queue
+                                          S.len_(_g(ns, 'g_out')) - S.len_(_g(ns.old, 'g_out')) + S.len_(_g(ns, '_sendBuffer'))
+                                          <= S.len_(_g(ns.old, '_sendBuffer'))),
+             loops={1: LoopSpec(_flush_inv, variant=lambda ns: S.len_(_g(ns, '_sendBuffer')),
+                                modifies_fields=[('self', f) for f in ('_sendBuffer', 'g_out', 'g_types', 'g_lens')],
+                                fingerprint='_sendBuffer')},
+             prop=('C14', 'C01'),
+             doc='hands the queued bytes to sendRecord in order, in fragments of the queue\'s content type, each 1..recordSize '
+                 'bytes and all but the last exactly recordSize (fewest possible records); queue empty and untyped afterwards; '
+                 'terminates (variant len(queue)) for recordSize >= 1; only 1 yielded')
+
+
+def _qm_post(ns):
+    t0 = _g(ns.old, '_sendBufferType')
+    mt = ns.old.f(ns.msg, 'contentType')
+    data = ns.old.f(ns.msg, 'data')
+    same = VBool(z3.BoolVal(True)) if isinstance(t0, VNone) else (t0 == mt)
+    out0, buf0 = _g(ns.old, 'g_out'), _g(ns.old, '_sendBuffer')
+    return S.And(
+        _g(ns, '_sendBufferType') == mt,
+        S.implies(same, S.And(_g(ns, 'g_out') == out0, _g(ns, '_sendBuffer') == S.cat(buf0, data),
+                              _g(ns, 'g_types') == _g(ns.old, 'g_types'), _g(ns, 'g_lens') == _g(ns.old, 'g_lens'))),
+        S.implies(S.Not(same), S.And(_g(ns, 'g_out') == S.cat(out0, buf0), _g(ns, '_sendBuffer') == data)))
+
+
+gen_contract(MSK + 'MessageSocket.queueMessage',
+             variants={'queue-untyped': {'self': msock_t(False), 'msg': MSG_T},
+                       'queue-typed': {'self': msock_t(True), 'msg': MSG_T}},
+             requires=lambda ns: S.And(_g(ns, 'recordSize') >= 1, _ms_hist_ok(ns),
+                                       ns.f(ns.msg, 'contentType') >= 0, ns.f(ns.msg, 'contentType') <= 255,
+                                       # an untyped queue is empty (established by __init__ and flush)
+                                       VBool(z3.BoolVal(True)) if not isinstance(_g(ns, '_sendBufferType'), VNone)
+                                       else S.len_(_g(ns, '_sendBuffer')) == 0),
+             each=lambda ns, v: v == 1, final='return', modifies=_MS_MOD + [('self', '_sendBufferType')],
+             ensures=_qm_post, raises={Exception: None},
+             prop=('C14', 'C01'),
+             doc='a message of the queue\'s type (or any message on an empty queue) is appended; a message of another type first '
+                 'flushes the queue, so records leave in the order the messages were queued: (sent ++ pending) grows by exactly '
+                 'msg.write()')
+
+REG.note('C14', 'trusted', 'MessageSocket contracts: RecordLayer.sendRecord assumed to put exactly msg.write() on the wire as one record of '
+                           'msg.contentType, yield only 1, and not count a failed record (its parts are proved separately: protect paths '
+                           'under C01, RecordSocket.send above)')
+REG.note('C14', 'assumptions', 'MessageSocket.flush / queueMessage: recordSize >= 1 (recordSize == 0 makes flush spin forever without '
+                               'consuming the queue: caller error, as for TLSRecordLayer._sendMsg); message content types are bytes')
